@@ -195,11 +195,13 @@ class CoreGen:
         return self.leaf(sc, False)
 
     def call(self, sc, f, depth, pure):
-        if "arg_new_param" in self.gates and self.statics:
+        if "arg_new_param" in self.gates:
             # arguments are evaluated in the callee's context by the implementation (C08 finding): a static
-            # local of the caller is not visible there
+            # local of the caller is not visible there, and a caller variable that has the name of one of the callee's
+            # parameters reads the callee's freshly bound parameter
             saved = sc.scalars
-            sc.scalars = [v for v in sc.scalars if v[0] not in self.statics]
+            pnames = {p[1] for p in f.params}
+            sc.scalars = [v for v in sc.scalars if v[0] not in self.statics and v[0] not in pnames]
             try:
                 return self.call2(sc, f, depth, pure)
             finally:
@@ -475,7 +477,11 @@ class CoreGen:
                     self.globals.arrays = [(a[0], a[1], a[2], True) for a in gl.arrays]
                     lv = self.lvalue(sc)
                     if lv and not lv[2]:
-                        body.append("(assign %s %s)" % (lv[0], self.fit(sc, lv[1], 2, True)))
+                        strict = lv[3] == "member" and "member_range" in self.gates
+                        rhs = (self.fit_strict if strict else self.fit)(sc, lv[1], 2, True)
+                        if lv[3] != "var" and "ternary_rhs_elem_member" in self.gates and "(tern" in rhs:
+                            rhs = lit(r.range(0, 9))
+                        body.append("(assign %s %s)" % (lv[0], rhs))
                     else:
                         body.append(self.decl(sc))
                     self.globals = gl
